@@ -99,6 +99,14 @@ def gen_rib_file(rng, empty_view=None):
     return out, {'rib': '[%s]' % rib, 'tables': tabs, 'par': par}
 
 
+# the FSM state codes of a BGP4MP state change record (RFC 6396 4.4.1 / RFC 4271): the oracle's own table
+STATE_NAMES = {1: 'Idle', 2: 'Connect', 3: 'Active', 4: 'OpenSent', 5: 'OpenConfirm', 6: 'Established'}
+
+
+def state_s(n):
+    return '%d/%s' % (n, STATE_NAMES.get(n, 'Unimplemented(%d)' % n))
+
+
 def gen_mp_records(rng, bgp_pool):
     """list of (bytes, expected item string)"""
     recs = []
@@ -115,7 +123,7 @@ def gen_mp_records(rng, bgp_pool):
             o, n = rng.choice([1, 2, 3, 4, 5, 6, 0, 7]), rng.choice([1, 6, 3, 65535])
             body = head + struct.pack('>HH', o, n)
             sub = 5 if as4 else 0
-            item = 'S%d:%d:%d:%d:%d:%s:%s:%d:%d' % (1 if as4 else 0, pa, la, ifc, 2 if v6 else 1, a.hex(), b.hex(), o, n)
+            item = 'S%d:%d:%d:%d:%d:%s:%s:%s:%s' % (1 if as4 else 0, pa, la, ifc, 2 if v6 else 1, a.hex(), b.hex(), state_s(o), state_s(n))
         else:
             m = rng.choice(bgp_pool)
             body = head + m
